@@ -1,6 +1,7 @@
 """C08 — completion is stable."""
 from .. import scenlib as S
 from ._common import flat, matrix_jobs, mk, t_tree
+from ..runner import Job
 
 META = dict(
     explanation='Snapshots (status, completion signal, result ids + statuses + value digests) are taken at the first observation of '
@@ -11,7 +12,72 @@ META = dict(
     assumptions=[],
     outside=['> 4 buses'],
 )
-TEMPLATES = {'tree': t_tree}
+def t_two_loops(ctx):
+    """An event is dispatched, awaited (while still pending) and observed complete in one event loop (one asyncio.run()); the same
+    event object is then looked at from a second event loop, as scripts and test suites do.  It is still complete: signal set,
+    `await event` and the accessors return at once with the same results."""
+    import asyncio
+    from ..base import Exact
+    from ..events import P
+    from ..runner import Job  # noqa
+    d = ctx.real('d', 0, Exact('1/5'))
+    keep = {}
+    ctx.new_loop(horizon=5)
+    bus = ctx.bus('A')
+
+    async def hP(h, ev):
+        await h.sleep(d)
+        return 'p'
+    ctx.on(bus, P, 'hP', hP)
+
+    async def main1():
+        m = ctx.main
+        e = m.dispatch(bus, ctx.ev(P, 'P1', event_timeout=30.0))
+        await m.wait(e)
+        keep['e'] = e
+        keep['snap1'] = ctx.snap(e)
+        await bus.stop()
+    ok1 = ctx.run(main1())
+    ctx.check('C08.terminates', bool(ok1))
+    if not ok1:
+        return
+    ctx.teardown()
+    ctx.new_loop(horizon=5)
+    out = {}
+
+    async def main2():
+        e = keep['e']
+        out['snap2'] = ctx.snap(e)
+        try:
+            r = await asyncio.wait_for(e.event_result(), timeout=1.0)
+            out['result'] = r
+        except BaseException as ex:  # noqa
+            out['result_exc'] = ex
+        try:
+            await asyncio.wait_for(_aw(e), timeout=1.0)
+            out['await'] = 'returned'
+        except BaseException as ex:  # noqa
+            out['await'] = repr(ex)
+        out['snap3'] = ctx.snap(e)
+
+    async def _aw(e):
+        return await e
+    ok2 = ctx.run(main2())
+    ctx.check('C08.terminates', bool(ok2))
+    s1 = keep['snap1']
+    ctx.check('C08.no_regress', s1['status'] == 'completed' and s1['signal'] is True, at='first loop', got=(s1['status'], s1['signal']))
+    for k in ('snap2', 'snap3'):
+        sn = out.get(k)
+        if sn is None:
+            continue
+        ctx.check('C08.no_regress', sn['status'] == 'completed' and sn['signal'] is True, at=k + ' (second loop)', got=(sn['status'], sn['signal']))
+        ctx.check('C08.results_frozen', sn['results'] == s1['results'], at=k)
+    ctx.check('C08.no_regress', out.get('await') == 'returned' and out.get('result') == 'p', got=(out.get('await'), repr(out.get('result', out.get('result_exc')))[:80]),
+              why='a completed event could not be awaited / read again from a second event loop')
+    ctx.witness('completion observed')
+
+
+TEMPLATES = {'tree': t_tree, 's1.two_loops': t_two_loops}
 
 
 def jobs(tier):
@@ -24,6 +90,7 @@ def jobs(tier):
         mk('C08', 'spawned_child_between_handlers/async', S.spawned_child_between_handlers(False), witnesses=W),
         mk('C08', 'read_after_completion', S.read_after_completion(), witnesses=W),
         mk('C08', 'spawned_late_child', S.spawned_late_child(), witnesses=W),
+        [Job('C08', 's1.two_loops', t_two_loops, {}, witnesses=W)],
         mk('C08', 'read_after_completion/par', S.read_after_completion(parallel=True), witnesses=W),
         mk('C08', 'fw/chain2', S.forward_chain(2, topo='chain'), witnesses=W),
         mk('C08', 'fw/chain2/poll', S.forward_chain(2, topo='chain', poll=True), witnesses=W),
